@@ -1,7 +1,14 @@
 """Watchdog around implementation calls (DESIGN 2.5).  Re-entrant: a guarded call made inside another guarded call
-never disarms or extends the outer alarm."""
+never disarms or extends the outer alarm.  The budget is CPU time of the worker process (ITIMER_PROF), not wall-clock
+time, so a loaded machine does not turn slow calls into timeouts; VERIF_TIMEOUT_SCALE multiplies every budget (used
+by the confirmation pass of harness/core.py)."""
+import os
 import signal
 import time
+
+SCALE = float(os.environ.get("VERIF_TIMEOUT_SCALE", "1") or 1)
+_WHICH = signal.ITIMER_PROF
+_now = time.process_time
 
 
 class CallTimeout(BaseException):
@@ -12,7 +19,7 @@ def _alarm(signum, frame):
     raise CallTimeout()
 
 
-signal.signal(signal.SIGALRM, _alarm)
+signal.signal(signal.SIGPROF, _alarm)
 
 
 class _Timer:
@@ -22,31 +29,32 @@ class _Timer:
         self.timeout = timeout
 
     def __enter__(self):
-        self.outer = signal.getitimer(signal.ITIMER_REAL)[0]
-        self.t0 = time.time()
+        self.outer = signal.getitimer(_WHICH)[0]
+        self.t0 = _now()
         t = self.timeout if self.outer <= 0 else min(self.timeout, self.outer)
-        signal.setitimer(signal.ITIMER_REAL, max(t, 0.001))
+        signal.setitimer(_WHICH, max(t, 0.001))
         return self
 
     def __exit__(self, *a):
         if self.outer > 0:
-            left = self.outer - (time.time() - self.t0)
-            signal.setitimer(signal.ITIMER_REAL, max(left, 0.001))
+            left = self.outer - (_now() - self.t0)
+            signal.setitimer(_WHICH, max(left, 0.001))
         else:
-            signal.setitimer(signal.ITIMER_REAL, 0)
+            signal.setitimer(_WHICH, 0)
         return False
 
 
 def call(fn, *args, timeout=2.0, **kw):
     """-> ('ok', value) | ('exc', 'ClassName', message) | ('timeout',)"""
-    outer_armed = signal.getitimer(signal.ITIMER_REAL)[0] > 0
-    t0 = time.time()
+    outer_armed = signal.getitimer(_WHICH)[0] > 0
+    timeout = timeout * SCALE
+    t0 = _now()
     try:
         with _Timer(timeout):
             v = fn(*args, **kw)
         return ("ok", v)
     except CallTimeout:
-        if outer_armed and time.time() - t0 < timeout * 0.95:
+        if outer_armed and _now() - t0 < timeout * 0.95:
             raise            # it was the enclosing alarm that fired: let the enclosing guarded call see it
         return ("timeout",)
     except RecursionError:
@@ -59,8 +67,9 @@ def take(gen_fn, limit, timeout=2.0):
     """Consume at most `limit` items of the iterable returned by gen_fn().
     -> ('ok', items, exhausted) | ('exc', name, msg) | ('timeout', items)"""
     items = []
-    outer_armed = signal.getitimer(signal.ITIMER_REAL)[0] > 0
-    t0 = time.time()
+    outer_armed = signal.getitimer(_WHICH)[0] > 0
+    timeout = timeout * SCALE
+    t0 = _now()
     try:
         with _Timer(timeout):
             it = iter(gen_fn())
@@ -72,7 +81,7 @@ def take(gen_fn, limit, timeout=2.0):
                 items.append(x)
         return ("ok", items, exhausted)
     except CallTimeout:
-        if outer_armed and time.time() - t0 < timeout * 0.95:
+        if outer_armed and _now() - t0 < timeout * 0.95:
             raise
         return ("timeout", items)
     except Exception as e:  # pylint: disable=broad-except
